@@ -7,6 +7,14 @@
 (*          through the registry structure, the cache key on the direct and on the registry path   *)
 (*   conv   an endpoint value: round trip through the registry structure                           *)
 (*   mal / short / rnd   malformed or arbitrary text: must not crash                               *)
+(*   mgr    a direct object address (one text, or a ':'-separated list) given to a servant proxy:   *)
+(*          the endpoints its endpoint manager holds are those the texts name, and they carry the   *)
+(*          cache keys of the registry's descriptions of the same endpoints (seen through the       *)
+(*          manager as well)                                                                        *)
+(*   adp    the endpoint line of a server adapter / the administration endpoint, as the             *)
+(*          application stores it after reading its configuration: it is the endpoint the line      *)
+(*          names (the optional bind address is a field of its own), and its key is the key of the  *)
+(*          registry's description and of what the application announces for it                     *)
 (* "judged" sets are what the property forbids; "obs" sets are recorded, never judged (the          *)
 (* statement is silent there: repeated options, the layout of the registry structure, the key's    *)
 (* exact text, the Proto word).                                                                    *)
@@ -66,6 +74,36 @@ KeyConflict == IF Cardinality(KeyRel) = Cardinality(KeyDom) THEN {}
 KeyGroupBad == IF KeyConflict = {} THEN {}
                ELSE {Id(i) : i \in {j \in Judged : <<TenTuple(Exp(Recs[j])), Recs[j].p.key>> \in KeyConflict}}
 
+\* ---------------------------------------------------------------- the sites that use a parsed endpoint
+MgrIdx == {i \in Idx : Recs[i].cls = "mgr"}
+AdpIdx == {i \in Idx : Recs[i].cls = "adp"}
+PartExp(p) == WithSet(Parse(p.proto, p.opts), p.sid)
+MgrJ   == {i \in MgrIdx \cap Alive : \A k \in DOMAIN Recs[i].parts : DistinctLetters(Recs[i].parts[k].opts)}
+AdpJ   == {i \in AdpIdx \cap Alive : DistinctLetters(Recs[i].opts)}
+Vals(s, f) == {s[k][f] : k \in DOMAIN s}
+\* one endpoint per member of the address list, on either path
+MgrCountBad == {Id(i) : i \in {j \in MgrJ : Len(Recs[j].d) # Len(Recs[j].parts) \/ Len(Recs[j].r) # Len(Recs[j].parts)}}
+\* the manager's endpoints are the endpoints the texts name (field by field; for a list: the same values occur)
+MgrFieldBad == UNION {LET r == Recs[i] e == [k \in DOMAIN r.parts |-> PartExp(r.parts[k])]
+                      IN {<<r.id, f>> : f \in {g \in ParseFields : Vals(r.d, g) # Vals(e, g)}} : i \in MgrJ}
+\* direct address vs. registry, both as the manager holds them: the same cache keys
+MgrKeyBad   == {Id(i) : i \in {j \in MgrJ : Vals(Recs[j].d, "key") # Vals(Recs[j].r, "key")}}
+ObsMgrReg   == UNION {LET r == Recs[i] e == [k \in DOMAIN r.parts |-> PartExp(r.parts[k])]
+                      IN {<<r.id, f>> : f \in {g \in Ten : Vals(r.r, g) # Vals(e, g)}} : i \in MgrJ}
+\* the stored adapter endpoint is the endpoint its line names
+AdpFieldBad == UNION {LET r == Recs[i] IN {<<r.id, f>> : f \in FieldDiff(r.a, Parse(r.proto, r.opts), ParseFields)} : i \in AdpJ}
+\* its key: that of the registry's description of the endpoint the line names, and that of its own announcement
+AdpKeyRegBad == {Id(i) : i \in {j \in AdpJ : Recs[j].a.key # Recs[j].rk}}
+AdpKeyAnnBad == {Id(i) : i \in {j \in AdpIdx \cap Alive : Recs[j].b.key # Recs[j].a.key}}
+AdpRoundBad  == UNION {LET r == Recs[i] IN {<<r.id, f>> : f \in FieldDiff(r.b, r.a, Ten)} : i \in AdpIdx \cap Alive}
+\* where the application listens (Endpoint!ListenAddr): recorded, the statement does not speak about it
+ObsListen   == {Id(i) : i \in {j \in AdpJ : Recs[j].hooked /\ Recs[j].site = "adapter" /\
+                   LET e == Parse(Recs[j].proto, Recs[j].opts) l == ListenAddr(e) IN Recs[j].addr # l[1] \o ":" \o ToString(l[2])}}
+\* corpus facts of the two classes
+AdpBindOther == Cardinality({i \in AdpJ : LET e == Parse(Recs[i].proto, Recs[i].opts) IN e.bind # "" /\ e.bind # e.host})
+AdpBindSame  == Cardinality({i \in AdpJ : LET e == Parse(Recs[i].proto, Recs[i].opts) IN e.bind # "" /\ e.bind = e.host})
+AdpBindNone  == Cardinality({i \in AdpJ : Parse(Recs[i].proto, Recs[i].opts).bind = ""})
+
 \* ---------------------------------------------------------------- observations (not judged)
 TarsView(f) == [host |-> f.host, port |-> f.port, timeout |-> f.timeout, kind |-> f.istcp, grid |-> f.grid, qos |-> f.qos,
                 weight |-> f.weight, wtype |-> f.wtype, auth |-> f.auth, setid |-> f.setid]
@@ -88,6 +126,13 @@ Verdict ==
      panics |-> SetToSeq(Panics),
      parse |-> SetToSeq(ParseBad), round |-> SetToSeq(RoundBad), reground |-> SetToSeq(RegRoundBad), conv_round |-> SetToSeq(ConvBad),
      key_conv |-> SetToSeq(KeyConvBad), key_reg |-> SetToSeq(KeyRegBad), key_group |-> SetToSeq(KeyGroupBad),
+     mgr |-> Cardinality(MgrIdx), mgr_judged |-> Cardinality(MgrJ), mgr_lists |-> Cardinality({i \in MgrJ : Len(Recs[i].parts) > 1}),
+     adp |-> Cardinality(AdpIdx), adp_judged |-> Cardinality(AdpJ), adp_bind_other |-> AdpBindOther, adp_bind_same |-> AdpBindSame,
+     adp_bind_none |-> AdpBindNone,
+     mgr_count |-> SetToSeq(MgrCountBad), mgr_field |-> SetToSeq(MgrFieldBad), mgr_key |-> SetToSeq(MgrKeyBad),
+     adp_field |-> SetToSeq(AdpFieldBad), adp_key_reg |-> SetToSeq(AdpKeyRegBad), adp_key_ann |-> SetToSeq(AdpKeyAnnBad),
+     adp_round |-> SetToSeq(AdpRoundBad),
+     obs_mgrreg |-> SetToSeq(ObsMgrReg), obs_listen |-> SetToSeq(ObsListen),
      obs_convkey |-> SetToSeq(ConvKeyBad),
      obs_repeat |-> SetToSeq(ObsRepeat), obs_totars |-> SetToSeq(ObsToTars), obs_fromreg |-> SetToSeq(ObsFromReg),
      obs_keytext |-> SetToSeq(ObsKeyText), obs_proto |-> SetToSeq(ObsProto), obs_str |-> SetToSeq(ObsStr),
